@@ -38,8 +38,14 @@ fn suffix_kind(m: &[u8]) -> &'static str {
 
 pub fn run(cfg: &Cfg, rep: &mut Report) {
     let reps = cfg.n(1, 48, 2_880);
+    corpus_stage(cfg, rep, "C20", "corpus", reps);
+}
+
+/// The corpus workload; also run (shorter) by C03, whose matching rule the derived `from_mnemonic` applies to
+/// character data. `pfx` is the property the signatures are reported under.
+pub fn corpus_stage(cfg: &Cfg, rep: &mut Report, pfx: &'static str, stage: &'static str, reps: u64) {
     let n_enums = if cfg.tiny { 6 } else { CORPUS.len() as u64 };
-    run_cases(cfg, "corpus", n_enums * reps, rep, |rng, ctx| {
+    run_cases(cfg, stage, n_enums * reps, rep, |rng, ctx| {
         let e = &CORPUS[(ctx.index % CORPUS.len() as u64) as usize];
         let shape = format!("variants={} fields={} suffixed={}", e.mnemonics.len(), e.field.iter().filter(|f| **f).count(), e.mnemonics.iter().filter(|m| m.last().map_or(false, |c| c.is_ascii_digit())).count());
         ctx.count(&format!("enum-shape.variants.{:02}", e.mnemonics.len()));
@@ -48,20 +54,20 @@ pub fn run(cfg: &Cfg, rep: &mut Report) {
             bump(ctx, 1);
             // each variant reports its own mnemonic
             if (e.mnemonic_of)(vi) != *m {
-                ctx.violation("C20:mnemonic()-returns-another-variant's-mnemonic", jobj(&[("enum", jstr(e.name)), ("variant", vi.to_string()), ("got", jbytes((e.mnemonic_of)(vi))), ("want", jbytes(m))]));
+                ctx.violation(&format!("{}:mnemonic()-returns-another-variant's-mnemonic", pfx), jobj(&[("enum", jstr(e.name)), ("variant", vi.to_string()), ("got", jbytes((e.mnemonic_of)(vi))), ("want", jbytes(m))]));
             }
             // response text is character data and selects the same variant
             match (e.format)(vi) {
-                Err(x) => ctx.violation("C20:response-format-failed", jobj(&[("enum", jstr(e.name)), ("variant", vi.to_string()), ("error", x.get_code().to_string())])),
+                Err(x) => ctx.violation(&format!("{}:response-format-failed", pfx), jobj(&[("enum", jstr(e.name)), ("variant", vi.to_string()), ("error", x.get_code().to_string())])),
                 Ok(text) => {
                     let k = suffix_kind(m);
                     ctx.count(&format!("response.{}", k));
                     if !is_chardata(&text) {
-                        ctx.violation(&format!("C20:response-text-is-not-character-data:{}", k), jobj(&[("enum", jstr(e.name)), ("mnemonic", jbytes(m)), ("text", jbytes(&text))]));
+                        ctx.violation(&format!("{}:response-text-is-not-character-data:{}", pfx, k), jobj(&[("enum", jstr(e.name)), ("mnemonic", jbytes(m)), ("text", jbytes(&text))]));
                     }
                     match (e.try_from_token)(Token::CharacterProgramData(&text)) {
                         Ok(i) if i == vi => {}
-                        other => ctx.violation(&format!("C20:response-text-does-not-select-same-variant:{}", k), jobj(&[("enum", jstr(e.name)), ("mnemonics", jstr(&format!("{:?}", e.mnemonics.iter().map(|m| show(m)).collect::<Vec<_>>()))), ("variant_mnemonic", jbytes(m)), ("text", jbytes(&text)), ("selects", jstr(&format!("{:?}", other.map(|i| show(e.mnemonics[i])).map_err(|x| x.get_code()))))])),
+                        other => ctx.violation(&format!("{}:response-text-does-not-select-same-variant:{}", pfx, k), jobj(&[("enum", jstr(e.name)), ("mnemonics", jstr(&format!("{:?}", e.mnemonics.iter().map(|m| show(m)).collect::<Vec<_>>()))), ("variant_mnemonic", jbytes(m)), ("text", jbytes(&text)), ("selects", jstr(&format!("{:?}", other.map(|i| show(e.mnemonics[i])).map_err(|x| x.get_code()))))])),
                     }
                 }
             }
@@ -91,11 +97,11 @@ pub fn run(cfg: &Cfg, rep: &mut Report) {
                 }
                 if got != want {
                     let sig = match (got, want) {
-                        (Some(_), Some(_)) => "C20:from_mnemonic-selects-wrong-variant",
-                        (Some(_), None) => "C20:from_mnemonic-selects-variant-for-non-matching-datum",
-                        _ => "C20:from_mnemonic-misses-matching-datum",
+                        (Some(_), Some(_)) => "from_mnemonic-selects-wrong-variant",
+                        (Some(_), None) => "from_mnemonic-selects-variant-for-non-matching-datum",
+                        _ => "from_mnemonic-misses-matching-datum",
                     };
-                    ctx.violation(sig, jobj(&[("enum", jstr(e.name)), ("mnemonics", jstr(&format!("{:?}", e.mnemonics.iter().map(|m| show(m)).collect::<Vec<_>>()))), ("datum", jbytes(c)), ("got", jstr(&format!("{:?}", got))), ("want", jstr(&format!("{:?}", want)))]));
+                    ctx.violation(&format!("{}:{}", pfx, sig), jobj(&[("enum", jstr(e.name)), ("mnemonics", jstr(&format!("{:?}", e.mnemonics.iter().map(|m| show(m)).collect::<Vec<_>>()))), ("datum", jbytes(c)), ("got", jstr(&format!("{:?}", got))), ("want", jstr(&format!("{:?}", want)))]));
                 }
                 // TryFrom<Token>: character datum -> that variant or illegal parameter value (-224)
                 let r = (e.try_from_token)(Token::CharacterProgramData(c));
@@ -105,7 +111,7 @@ pub fn run(cfg: &Cfg, rep: &mut Report) {
                     _ => false,
                 };
                 if !ok {
-                    ctx.violation("C20:TryFrom-character-datum-differs", jobj(&[("enum", jstr(e.name)), ("datum", jbytes(c)), ("got", jstr(&format!("{:?}", r.as_ref().map_err(|x| x.get_code())))), ("want", jstr(&format!("{:?}", want)))]));
+                    ctx.violation(&format!("{}:TryFrom-character-datum-differs", pfx), jobj(&[("enum", jstr(e.name)), ("datum", jbytes(c)), ("got", jstr(&format!("{:?}", r.as_ref().map_err(|x| x.get_code())))), ("want", jstr(&format!("{:?}", want)))]));
                 }
             }
             // every other element type is a type error (-104)
@@ -122,7 +128,7 @@ pub fn run(cfg: &Cfg, rep: &mut Report) {
                 bump(ctx, 1);
                 match (e.try_from_token)(t) {
                     Err(x) if x.get_code() == -104 => ctx.count("other-element-kinds.rejected-with-104"),
-                    other => ctx.violation("C20:non-character-element-not-a-type-error", jobj(&[("enum", jstr(e.name)), ("token", jstr(&format!("{:?}", t))), ("got", jstr(&format!("{:?}", other.map_err(|x| x.get_code()))))])),
+                    other => ctx.violation(&format!("{}:non-character-element-not-a-type-error", pfx), jobj(&[("enum", jstr(e.name)), ("token", jstr(&format!("{:?}", t))), ("got", jstr(&format!("{:?}", other.map_err(|x| x.get_code()))))])),
                 }
             }
         }
